@@ -1,8 +1,9 @@
 (* C15 — Factory capacity controls: limits, rate, pool size, draining.
    Only statements (pinned with their literal text), non-vacuity examples and
-   Print Assumptions.  Bucket: model Ratelim/Model.v, proofs Ratelim/Proofs.v. *)
-From Coq Require Import List NArith Bool.
-From RV Require Import Ratelim.Model Ratelim.Proofs.
+   Print Assumptions.  Bucket: model Ratelim/Model.v, proofs Ratelim/Proofs.v.
+   Factory: model Factory/Capacity.v, proofs Factory/CapacityProofs.v. *)
+From Coq Require Import List NArith Bool Permutation.
+From RV Require Import Ratelim.Model Ratelim.Proofs Factory.Capacity Factory.CapacityProofs.
 Import ListNotations.
 Local Open Scope N_scope.
 
@@ -80,8 +81,8 @@ Proof. exact router_window. Qed.
 
 Theorem C15_router_rejects : forall c b t h,
   let b' := refresh c b t in
-  (balance b' = 0 -> route c b t h = (b', RRateLimited))
-  /\ (0 < balance b' -> route c b t h = if h then (bump b', RHandled) else (b', RBacklog)).
+  (balance b' = 0 -> Ratelim.Model.route c b t h = (b', RRateLimited))
+  /\ (0 < balance b' -> Ratelim.Model.route c b t h = if h then (bump b', RHandled) else (b', RBacklog)).
 Proof. exact route_rejects. Qed.
 
 (* (B8) the executable oracle never rejects a run of the model *)
@@ -89,6 +90,100 @@ Theorem C15_bucket_oracle_sound : forall c initial t0 ops,
   let r := bucket_run c initial t0 ops in
   check_C15_bucket c t0 (fst r, ops, snd r) = true.
 Proof. exact oracle_sound. Qed.
+
+(* ================= factory (factoryimpl.rs, worker.rs, queues.rs, routing.rs) ================= *)
+
+(* (F1) with a limit L -- any L including 0, either mode, every router / queue kind, with or
+   without a rate limiter -- after EVERY label sequence (dispatch bursts, completions, handler
+   failures, kills, resizes, DrainRequests, time) the factory queue holds at most L discardable
+   jobs, and when the router queues at the workers every worker's own queue holds at most L jobs *)
+Theorem C15_queue_bound : forall c L m ops,
+  c_discard c = Some (L, m) ->
+  let s := state_after c (fst (init c 0)) ops in
+  len (filter (discardable c) (f_q s)) <= L
+  /\ (factory_queueing c = false -> forall w, In w (f_pool s) -> len (w_q w) <= L).
+Proof. exact queue_bound. Qed.
+
+(* (F2) which job is shed, and that it is reported exactly once.
+   Newest: the arriving job itself, reported and rejected, queue untouched -- or it is queued.
+   Oldest: the arriving job is accepted; the queue plus the arrival is exactly (as a multiset) the
+   reported jobs plus the remaining queue, each shed job reported once as Loadshed; and each shed
+   job comes from the lowest non-empty priority level and is the oldest of that level. *)
+Theorem C15_shed_newest : forall c L q j,
+  c_discard c = Some (L, Newest) ->
+  (fst (maybe_enqueue c q j) = q /\ snd (maybe_enqueue c q j) = [EDiscard (jid j) Loadshed; EReject (jid j)])
+  \/ (fst (maybe_enqueue c q j) = q ++ [j] /\ snd (maybe_enqueue c q j) = [EAccept (jid j)]).
+Proof. intros c L q j H. exact (maybe_enqueue_newest c L Newest H q j eq_refl). Qed.
+
+Theorem C15_shed_oldest : forall c L q j,
+  c_discard c = Some (L, Oldest) ->
+  exists shed, Permutation (q ++ [j]) (shed ++ fst (maybe_enqueue c q j))
+    /\ snd (maybe_enqueue c q j) = EAccept (jid j) :: map (fun x => EDiscard (jid x) Loadshed) shed
+    /\ len (fst (maybe_enqueue c q j)) <= L.
+Proof. intros c L q j H. exact (maybe_enqueue_oldest c L Oldest H q j eq_refl). Qed.
+
+Theorem C15_shed_oldest_identity : forall k q x q',
+  discard_oldest k q = Some (x, q') ->
+  (forall j, In j q -> eff_prio k j <= eff_prio k x)
+  /\ exists a b, q = a ++ x :: b /\ q' = a ++ b /\ forall j, In j a -> eff_prio k j < eff_prio k x.
+Proof. exact discard_oldest_identity. Qed.
+
+(* (F3) resize: after EVERY label sequence (resizes interleaved with dispatches, busy workers,
+   completions, failures and kills, draining), whenever the factory is alive and no worker is
+   busy, the pool is exactly the slots 0..n-1, none draining, for the last non-zero requested
+   size n (0 ignored, capped at 1_000_000; the initial size if none).  Holds for the model of the
+   tree WITH fix F7; without it the statement is false (see ex_F7_scenario below and notes). *)
+Theorem C15_resize_converges : forall c ops,
+  let s := state_after c (fst (init c 0)) ops in
+  f_stopped s = false -> all_available (f_pool s) = true ->
+  f_size s = target_after (c_n0 c) ops
+  /\ (forall i, (exists w, find_w (f_pool s) i = Some w) <-> i < f_size s)
+  /\ (forall i w, find_w (f_pool s) i = Some w -> w_drain w = false).
+Proof. exact resize_converges. Qed.
+
+(* (F4) drain: after a DrainRequests anywhere in any history, no later dispatch is accepted ... *)
+Theorem C15_drain_refuses : forall c ops1 ops2 j,
+  let s := state_after c (fst (step c (state_after c (fst (init c 0)) ops1) FDrain)) ops2 in
+  existsb is_accept_ev (snd (step c s (FDispatch j))) = false.
+Proof. exact drain_refuses. Qed.
+
+(* ... it is reported as Shutdown and rejected while the factory lives, dropped afterwards *)
+Theorem C15_drain_refusal_shape : forall c s j, closing s ->
+  existsb is_accept_ev (snd (step c s (FDispatch j))) = false
+  /\ (f_stopped s = true -> snd (step c s (FDispatch j)) = [EDropped (jid j)])
+  /\ (f_stopped s = false ->
+      exists rest, snd (step c s (FDispatch j)) = EDiscard (jid j) Shutdown :: EReject (jid j) :: rest).
+Proof. exact drain_refuses_step. Qed.
+
+(* ... and while draining the factory stops exactly when, after a processed message, every worker
+   is available and the queue is empty -- not before (earlier jobs finish first), not later; the
+   stopped hook is then the last hook; a factory that is not draining never stops by itself *)
+Theorem C15_drain_stops_when_idle : forall s, f_drain s = Draining ->
+  if all_available (f_pool s) && (len (f_q s) =? 0)
+  then f_stopped (fst (after_message s)) = true /\ snd (after_message s) = [EHook HStopped; EStopped]
+  else after_message s = (s, []).
+Proof. exact drain_stop_spec. Qed.
+
+Theorem C15_no_stop_without_drain : forall s, f_drain s = NotDraining -> after_message s = (s, []).
+Proof. exact not_draining_never_stops. Qed.
+
+(* OPEN (hooks): forall c ops, hooks_of (concat (factory_run c ops)) = HStarted :: repeat HDraining k
+   ++ (if stopped then [HStopped] else []) -- the order started, draining, stopped over whole runs.
+   Proved pieces: init emits [EHook HStarted] (by computation), FDrain emits EHook HDraining first,
+   C15_drain_stops_when_idle gives HStopped last; the "no other function emits a hook" pass over the
+   model is not done.  The clause is enforced on every run by the oracle clause hooks_order. *)
+
+(* (F5) a dispatch refused by the rate limiter is reported as RateLimited and rejected, and the
+   limiter refuses exactly when its refreshed balance is empty (bucket theorems then bound admissions) *)
+Theorem C15_bucket_reject_reported : forall c s j s1 e,
+  f_drain s = NotDraining -> route c s j None = (s1, Limited, e) ->
+  dispatch c s j = (s1, e ++ [EDiscard (jid j) RateLimited; EReject (jid j)]).
+Proof. exact rate_limited_reported. Qed.
+
+Theorem C15_rate_limited_iff_empty : forall c rc ini b s j hint,
+  c_rate c = Some (rc, ini) -> f_bucket s = Some b ->
+  (snd (fst (route c s j hint)) = Limited <-> balance (refresh rc b (f_now s)) = 0).
+Proof. exact route_limited_iff. Qed.
 
 (* ---- statement pins ---- *)
 Check (C15_bucket_cap : forall c initial now ops1 ops2,
@@ -101,6 +196,21 @@ Check (C15_bucket_zero_interval : forall c b ops,
   interval c = 0 -> admitted c b ops <= balance b + refill c * count_checks ops).
 Check (C15_bucket_no_deadline : forall c b ops,
   deadline b = None -> admitted c b ops <= balance b).
+
+Check (C15_queue_bound : forall c L m ops,
+  c_discard c = Some (L, m) ->
+  let s := state_after c (fst (init c 0)) ops in
+  len (filter (discardable c) (f_q s)) <= L
+  /\ (factory_queueing c = false -> forall w, In w (f_pool s) -> len (w_q w) <= L)).
+Check (C15_resize_converges : forall c ops,
+  let s := state_after c (fst (init c 0)) ops in
+  f_stopped s = false -> all_available (f_pool s) = true ->
+  f_size s = target_after (c_n0 c) ops
+  /\ (forall i, (exists w, find_w (f_pool s) i = Some w) <-> i < f_size s)
+  /\ (forall i w, find_w (f_pool s) i = Some w -> w_drain w = false)).
+Check (C15_drain_refuses : forall c ops1 ops2 j,
+  let s := state_after c (fst (step c (state_after c (fst (init c 0)) ops1) FDrain)) ops2 in
+  existsb is_accept_ev (snd (step c s (FDispatch j))) = false).
 
 (* ---- non-vacuity ---- *)
 Definition ex_cfg : cfg := mkCfg 2 100 10 18446744073709551615 9223372036000000000000000000.
@@ -129,6 +239,46 @@ Proof. vm_compute. reflexivity. Qed.
 Example ex_fresh : fresh (new ex_cfg (Some 1) 5) 5.
 Proof. vm_compute. reflexivity. Qed.
 
+(* factory examples *)
+Definition J (id : N) : job := mkJob id 0 3 true.
+Definition ex_fc : fcfg := mkFcfg RQueuer QDefault (Some (1, Oldest)) None 2.
+(* two workers busy, limit 1, oldest mode: jobs 3 and 4 are shed as 4 and 5 arrive *)
+Example ex_factory_oldest :
+  factory_run ex_fc [FDispatch (J 1); FDispatch (J 2); FDispatch (J 3); FDispatch (J 4); FDispatch (J 5); FQuery]
+  = [[EHook HStarted]; [EAccept 1; EStart 1 0 1]; [EAccept 2; EStart 2 1 1]; [EAccept 3];
+     [EAccept 4; EDiscard 3 Loadshed]; [EAccept 5; EDiscard 4 Loadshed];
+     [EQuery (Some 1) (Some 0) (Some 2) [0; 1]]].
+Proof. vm_compute. reflexivity. Qed.
+(* the F7 scenario: both busy, shrink to 1, the draining worker 1 is killed, worker 0 finishes:
+   the pool converges to [0] (on the tree before fix 5f6a017 the real factory kept [0; 1]) *)
+Example ex_F7_scenario :
+  factory_run (mkFcfg RRoundRobin QDefault None None 2)
+    [FDispatch (J 1); FDispatch (J 2); FResize 1; FKill 1; FFinishAll; FQuery]
+  = [[EHook HStarted]; [EAccept 1; EStart 1 1 1]; [EAccept 2; EStart 2 0 1]; []; [ELost 1]; [EEnd 2];
+     [EQuery (Some 0) (Some 1) (Some 0) [0]]].
+Proof. vm_compute. reflexivity. Qed.
+(* drain: later dispatch refused with Shutdown, earlier jobs finish, then the factory stops *)
+Example ex_drain :
+  factory_run ex_fc [FDispatch (J 1); FDispatch (J 2); FDispatch (J 3); FDrain; FDispatch (J 4);
+                     FFinishAll; FFinishAll; FDispatch (J 5)]
+  = [[EHook HStarted]; [EAccept 1; EStart 1 0 1]; [EAccept 2; EStart 2 1 1]; [EAccept 3]; [EHook HDraining];
+     [EDiscard 4 Shutdown; EReject 4]; [EEnd 1; EStart 3 0 1; EEnd 2]; [EEnd 3; EHook HStopped; EStopped];
+     [EDropped 5]].
+Proof. vm_compute. reflexivity. Qed.
+Example ex_oracle_accepts_model :
+  check_C15_factory ex_fc (model_windows ex_fc
+    [FSettle; FDispatch (J 1); FDispatch (J 2); FDispatch (J 3); FDispatch (J 4); FSettle; FDrain; FSettle;
+     FFinishAll; FSettle; FFinishAll; FSettle; FQuery; FSettle]) = true.
+Proof. vm_compute. reflexivity. Qed.
+(* the oracle rejects the trace the unfixed tree produced for the F7 scenario (live = [0; 1]) *)
+Example ex_oracle_rejects_F7_trace :
+  ck_resize (mkFcfg RRoundRobin QDefault None None 2)
+    [([FSettle], [EHook HStarted]);
+     ([FDispatch (J 1); FDispatch (J 2); FSettle], [EStart 1 1 1; EStart 2 0 1; EAccept 1; EAccept 2]);
+     ([FResize 1; FSettle], []); ([FKill 1; FSettle], [ELost 1]); ([FFinishAll; FSettle], [EEnd 2]);
+     ([FQuery; FSettle], [EQuery (Some 0) (Some 1) (Some 0) [0; 1]])] = false.
+Proof. vm_compute. reflexivity. Qed.
+
 Print Assumptions C15_bucket_cap.
 Print Assumptions C15_bucket_window.
 Print Assumptions C15_bucket_fresh_points.
@@ -141,3 +291,14 @@ Print Assumptions C15_bucket_refresh_exact.
 Print Assumptions C15_router_window.
 Print Assumptions C15_router_rejects.
 Print Assumptions C15_bucket_oracle_sound.
+Print Assumptions C15_queue_bound.
+Print Assumptions C15_shed_newest.
+Print Assumptions C15_shed_oldest.
+Print Assumptions C15_shed_oldest_identity.
+Print Assumptions C15_resize_converges.
+Print Assumptions C15_drain_refuses.
+Print Assumptions C15_drain_refusal_shape.
+Print Assumptions C15_drain_stops_when_idle.
+Print Assumptions C15_no_stop_without_drain.
+Print Assumptions C15_bucket_reject_reported.
+Print Assumptions C15_rate_limited_iff_empty.
